@@ -4,8 +4,8 @@ from .. import tlc
 from ..common import Machinery
 
 
-def cfg(ns, rof="FALSE", wto="FALSE"):
-    return (f"SPECIFICATION Spec\nCONSTANTS NS = {ns}\n ReturnOnFailure = {rof}\n WaitTimesOut = {wto}\nINVARIANT TypeOK\n"
+def cfg(ns, rof="FALSE", wto="FALSE", smr="FALSE"):
+    return (f"SPECIFICATION Spec\nCONSTANTS NS = {ns}\n ReturnOnFailure = {rof}\n WaitTimesOut = {wto}\n SendMayRaise = {smr}\nINVARIANT TypeOK\n"
             "INVARIANT ReportedSuccessMeansSent\nINVARIANT ResultMatches\nINVARIANT NoStrandedBlock\nPROPERTY CloseFinishes\nPROPERTY EverySendReturns\n")
 
 
@@ -24,6 +24,10 @@ def check(ctx, wd, witness):
         ctx.add_tlc(w, "regression witness: wait() gives up and counts 'no result yet' as success -> success reported for bytes never sent")
     if w.error_kind not in ("invariant", "property"):
         raise Machinery(f"SendHandover regression witness ({witness}) no longer fails ({w.error_kind})")
+    w2 = tlc.run("SendHandover", cfg_text=cfg(1, smr="TRUE"), workdir=wd, what="sendq_send_raises", timeout=600, deadlock=False, expect_error=True)
+    ctx.add_tlc(w2, "regression witness: send_data raises on a closed socket -> the block that was taken is never resolved, its sender never returns")
+    if w2.error_kind not in ("invariant", "property"):
+        raise Machinery(f"SendHandover regression witness (send raises) no longer fails ({w2.error_kind})")
 
 
 def validate(ctx, wd, recs, tag):
@@ -32,7 +36,7 @@ def validate(ctx, wd, recs, tag):
     recs = [r for r in recs if r.get("tev")]
     if not recs:
         raise Machinery("no recorded executions of the send path")
-    cfg_t = ("SPECIFICATION TSpec\nCONSTANTS NS = 3\n ReturnOnFailure = FALSE\n WaitTimesOut = FALSE\nCONSTRAINT Progress\nINVARIANT TypeOK\n"
+    cfg_t = ("SPECIFICATION TSpec\nCONSTANTS NS = 3\n ReturnOnFailure = FALSE\n WaitTimesOut = FALSE\n SendMayRaise = FALSE\nCONSTRAINT Progress\nINVARIANT TypeOK\n"
              "INVARIANT ReportedSuccessMeansSent\nINVARIANT ResultMatches\nINVARIANT NoStrandedBlock\n")
 
     def run(traces, what, workers):
